@@ -171,7 +171,10 @@ def text(rng, codec, n, kind='any'):
 
 DATE_FORMATS = [('%y%m%d%H%M%S', 12), ('%y%m%d', 6), ('%Y%m%d%H%M%S', 14), ('%Y%m%d', 8), ('%y%m', 4),
                 # formats without a year: the value is read in 1900, whatever today's date is
-                ('%m%d', 4), ('%H%M%S', 6), ('%m%d%H%M%S', 10)]
+                ('%m%d', 4), ('%H%M%S', 6), ('%m%d%H%M%S', 10),
+                # other orders and lengths (several as long as the default formats: 12, 6 and 8 digits)
+                ('%Y%m%d%H%M', 12), ('%d%m%y%H%M%S', 12), ('%H%M%S%y%m%d', 12), ('%m%d%y', 6), ('%d%m%Y', 8),
+                ('%Y%m', 6), ('%y%m%d%H%M', 10), ('%H%M', 4)]
 
 
 def pkg_config():
@@ -218,6 +221,14 @@ def gen_config(rng, with_decimal=False, decimal_widths=(3, 6, 8, 12, 15)):
             if pyt == 'datetime':
                 fc['field_date_format'] = rng.choice(DATE_FORMATS)[0]
         cfg[str(bit)] = fc
+    # the documentation's example entry spells out every optional key, the unused ones with "empty" values
+    # ("field_processor_config": "", "field_python_type": "string", a date format on an element that is no date)
+    for fc in cfg.values():
+        if rng.random() < 0.3:
+            if fc.get('field_processor') != 'DE43':
+                fc.setdefault('field_processor_config', '')
+            fc.setdefault('field_python_type', 'string')
+            fc.setdefault('field_date_format', '%y%m%d')
     # the ORDER of the keys of a caller's configuration carries no meaning: a configuration loaded from JSON written with
     # sort_keys=True has them in text order ('10', '100', '11', ..., '2'), one assembled at run time in any order
     how = rng.random()
@@ -286,6 +297,10 @@ def gen_tlvs(rng, maxlen=999):
         if len(out) + len(item) > maxlen:
             break
         out += item
+        if rng.random() < 0.06 and len(out) + 4 < maxlen:
+            # a x'00' byte in TAG position ends the walk (the rest of the element is padding, whatever it holds)
+            out += b'\x00' + rng.choice([b'', b'\x00\x00', b'\x5a\x02\x12\x34', b'\x9f\x27\x01\x80'])[:maxlen - len(out) - 1]
+            break
     return out or b'\x82\x02\x00\x00'
 
 
